@@ -7,6 +7,7 @@ import zlib
 from fractions import Fraction
 
 from harness import common as C
+from harness.props import c08_emit as E
 
 META = {
     "id": "C08",
@@ -544,10 +545,15 @@ def run(ctx: C.Ctx):
         if any(still):
             ctx.known(f"{f['id']}: {f['what']}")
 
+    # ---------------- emitter stage: the arguments as they reach the emitted C++ / the compiled firmware
+    import sys as _sys
+    emit_cov = E.run(ctx, _sys.modules[__name__], rows, findings, info)
+    dist["emitter_stage"] = emit_cov["distribution"]
+
     nontrivial = {(c["row"], len(c["pos"]), tuple(sorted(k for k, _ in c["kws"]))) for c in cases if rows[c["row"]]["sig"]}
-    samples = [res_main[i]["script"] for i in (0, len(cases) // 3, 2 * len(cases) // 3, len(cases) - 1)]
+    samples = [res_main[i]["script"] for i in (0, len(cases) // 3, 2 * len(cases) // 3, len(cases) - 1)] + emit_cov["samples"]
     ctx.coverage.update({
-        "evaluations": len(cases) + len(extras),
+        "evaluations": len(cases) + len(extras) + emit_cov["evaluations"],
         "distinct_nontrivial": len(nontrivial),
         "oracle_cases_inside_guard": n_oracle,
         "rule": "for every row (constructor / method / Core helper with a transpiler handler): every positional count 0..#positional-or-keyword, every subset of the remaining parameters that contains all required ones, passed as keywords in signature order (= every shape inspect.signature(...).bind accepts, up to keyword order) plus seeded keyword permutations and, every method shape again as the last statement of a for / main-loop / if / try block that first runs fully-spelled calls of every method on other devices (history independence of the binding), for every shape a re-spaced spelling (`k = v`, `k =v , `, `( k= v )`); each parameter carries its own distinct literal so the binding is read off the IR fields; distinct non-trivial = distinct (row, positional count, keyword set) of rows that have at least one parameter; plus shapes Python rejects (too many positionals, unknown keyword, positional+keyword, missing required) for the py_bind model only",
@@ -576,7 +582,10 @@ def run(ctx: C.Ctx):
 def replay(data):
     """./check replay <file>: re-run the recorded call on the real parser"""
     case = data.get("case")
-    if not isinstance(case, dict) or "row" not in case:
+    if isinstance(case, dict) and case.get("engine") in ("transfer", "constants"):
+        import sys as _sys
+        return E.replay(_sys.modules[__name__], data)
+    if not isinstance(case, dict) or "row" not in case or "pos" not in case:
         print("replay: no single failing call recorded in this file (broken proof or correspondence): re-run ./check C08")
         return 0
     info = C.run_impl("c08_impl.py", {"op": "rows"})
